@@ -75,6 +75,12 @@ Theorem unrepaired_start_vector_in_simplex_iff : forall ps, probs_nonneg ps ->
 Proof. exact start_unclamped_simplex_iff. Qed.
 Print Assumptions unrepaired_start_vector_in_simplex_iff.
 
+(* (the scaled inequality is "the probabilities sum to at most 1" in Q) *)
+Theorem scaled_hypothesis_is_sum_le_1 : forall ps,
+  zsum (fst (scaled ps)) <= snd (scaled ps) <-> (PageRankProofs.qsum ps <= 1)%Q.
+Proof. exact scaled_le_iff_qsum_le_1. Qed.
+Print Assumptions scaled_hypothesis_is_sum_le_1.
+
 (* ... and stored values strictly inside (0,1) (which the code restores) can
    violate that: witness 9/10, 9/10. *)
 Theorem unrepaired_start_vector_refuted :
